@@ -17,11 +17,14 @@ RULE = ("Hypothesis draws an equilibrium tissue (Voronoi diagram with tension = 
         "conditioning-scaled tolerance <= 0.02; distinct = fingerprint of the drawn parameters.")
 ASSUMPTIONS = [
     "ground truth is analytic (Maxwell reciprocal figure; Moebius maps preserve force balance and tensions)",
-    "tolerance = 10 x first-order perturbation bound from per-class circle-fit noise floors / sigma_min of the "
-    "analytic augmented matrix; cases with tolerance > 0.02 are skipped and counted",
+    "the assembled matrix is first compared entrywise with the analytic tangents (per-class circle-fit noise floors); "
+    "tolerance = 3 x the deviation from the truth of the exact minimisers (augmented least squares and KKT "
+    "formulation) of the system with the observed coefficients + 1e-6; cases with tolerance > 0.02 are skipped and "
+    "counted",
     "rotations are moved by construction off the known-finding class D1; tissues whose augmented system is rank "
     "deficient although force balance alone determines the tensions are the known-finding class D3",
-    "lmfit ('lsq') converges to ~1e-4; its tolerance is max(tol, 2e-3)",
+    "lmfit ('lsq') converges to ~1.5e-4: its tolerance is max(tol, 1e-3); 'lsq_linear' solves bordered normal "
+    "equations: max(tol, 3e-4, 2e-8 / cond^2)",
 ]
 
 
